@@ -9,7 +9,7 @@ Syntax (no spaces inside a token):
   cache  := `-` | entry (`|` entry)*        entry := peer `=` [addr (`+` addr)*]
   choice := `e:-` | `e:` peer (`,` peer)*   (peers the implementation evicted; tie-break witness)
 Ops:  cfg P A E N | mk s mode | tick d | add s ma e | upd s ma b | clean s e | flush s b e | write s | load e |
-      lupd ma b e | file cache | corrupt k | craft ma | race …
+      lupd ma b e | start flags count args env o e h | file cache | corrupt k | craft ma | race …
 -/
 namespace SafeNet.Driver.BootCache
 open SafeNet.BootCache
@@ -105,6 +105,29 @@ def perms : List Nat → List (List Nat)
 
 def rotations (l : List Nat) : List (List Nat) := (List.range l.length).map (fun k => l.drop k ++ l.take k)
 
+def parseTagged (tag : String) (s : String) : Option (List Nat) :=
+  match s.splitOn ":" with
+  | [t, "-"] => if t = tag then some [] else none
+  | [t, l] => if t = tag then (l.splitOn ",").mapM String.toNat? else none
+  | _ => none
+
+def parseMaList (s : String) : Option (List Ma) :=
+  if s = "-" then some [] else (s.splitOn "+").mapM parseMa
+
+def insertStr (x : String) : List String → List String
+  | [] => [x]
+  | y :: t => if x < y then x :: y :: t else y :: insertStr x t
+
+def sortStr : List String → List String
+  | [] => []
+  | x :: t => insertStr x (sortStr t)
+
+/-- result of `get_bootstrap_addr`, addresses rendered and sorted as strings -/
+def showStart : Except StartErr (List Addr) → String
+  | .ok l => if l.isEmpty then "ok -" else "ok " ++ "+".intercalate (sortStr (l.map showAddr))
+  | .error .noPeers => "err nopeers"
+  | .error .cache => "err cache"
+
 def flushOut (s : Sys) (i : Nat) : String := s!"m={memOf s i} f={showFile s.file}"
 
 def step (s : Sys) (ws : List String) : Sys × String :=
@@ -160,6 +183,22 @@ def step (s : Sys) (ws : List String) : Sys × String :=
       let s' := SafeNet.BootCache.step s (.rebuild i first dis)
       (s', s!"m={memOf s' i} f={showFile s'.file}")
     | none => (s, "bad-op")
+  | ["start", fl, cnt, as, ev, o, e, h] =>
+    -- `PeersArgs::get_bootstrap_addr`; `o:` = hash-map order of the cache peers in the result, `e:` = peers evicted
+    -- by the load, `h:` = digest of the implementation's output (selects the load's tie-break when the result is cut)
+    match parseMaList as, parseMaList ev, parseTagged "o" o, parseChoice e, parseDigest h with
+    | some addrs, some env, some ord, some ch, some d =>
+      let count := if cnt = "-" then none else cnt.toNat?
+      let args : StartArgs := ⟨fl.contains 'f', fl.contains 'l', fl.contains 'i', addrs, count⟩
+      let attempt (ch1 : List Nat) : String := showStart (startup s.cfg ch1 ord s.now args env s.file)
+      let r0 := attempt ch
+      if fnv r0 == d then (s, r0) else
+      let ks := match s.file with | .data c => keys c | _ => []
+      let cands := if ks.length ≤ 7 then perms ks else rotations ks
+      match cands.find? (fun ch1 => fnv (attempt ch1) == d) with
+      | some ch1 => (s, attempt ch1)
+      | none => (s, r0)
+    | _, _, _, _, _ => (s, "bad-op")
   | ["write", i] =>
     match i.toNat? with
     | some i => let s' := SafeNet.BootCache.step s (.write i); (s', s!"f={showFile s'.file}")
@@ -204,6 +243,11 @@ def searchCandidates : List String := Id.run do
   -- non-atomic write: readers can observe a partial file; ask the harness to race real writers
   if !Gen.BootCache.writeAtomic then
     out := out ++ ["cfg 50 6 86400 3", "race 1 3 60", "race 2 3 60", "race 3 4 60"]
+  -- start-up must not fail because of an unparsable cache file
+  if !Gen.BootCache.startupIgnoresLoadError then
+    let sa : StartArgs := ⟨false, false, false, [[.ip4 1, .udp 1, .quic, .p2p 7]], none⟩
+    if okB (startup ⟨3, 3, 100⟩ [] [] 1000000 sa [] .garbage) != okB (startup ⟨3, 3, 100⟩ [] [] 1000000 sa [] .absent) then
+      out := out ++ ["cfg 3 3 100 1", "corrupt 1", "start - - i4:1,u:1,q,p:7 -", "corrupt 0", "start d 5 i4:1,u:1,q,p:7 -"]
   -- bounds / clean-up clauses on a small exhaustive family of histories
   let a (p n : Nat) : String := s!"i4:{n},u:{n},q,p:{p}"
   let hist : List (List String) := [
